@@ -21,31 +21,36 @@ func NewPreviewReader(l zerolog.Logger) previewReader {
 }
 
 func (pr *previewReader) RenderPreview(r io.Reader, h meta.PreviewHeader) error {
-	img := make([]byte, h.Size)
-	offset := uint32(0)
-	maxSize := uint32(2048)
-	for {
-		maxOffset := offset + maxSize
-		if h.Size < maxOffset {
-			maxOffset = h.Size
+	// The size comes from the file: the image grows with the bytes actually read
+	// instead of being allocated up front from the declared size.
+	const maxSize = 2048
+	initial := h.Size
+	if initial > 64*1024 {
+		initial = 64 * 1024
+	}
+	img := make([]byte, 0, initial)
+	var buf [maxSize]byte
+	for uint32(len(img)) < h.Size {
+		n := h.Size - uint32(len(img))
+		if n > maxSize {
+			n = maxSize
 		}
 
-		readLength, err := r.Read(img[offset:maxOffset])
+		readLength, err := r.Read(buf[:n])
+		img = append(img, buf[:readLength]...)
 		if err != nil {
 			if err == io.EOF {
 				break
 			}
 			pr.logError(err).
-				Uint32("offset", offset).
-				Uint32("maxOffset", maxOffset).
+				Uint32("offset", uint32(len(img))).
+				Uint32("size", h.Size).
 				Msgf("error read preview image")
 			return err
 		}
 		if readLength == 0 {
 			break
 		}
-
-		offset += uint32(readLength)
 	}
 
 	pr.PreviewImage = img
